@@ -32,9 +32,38 @@ def kernels(tier):
     n2 = lambda v: R.dot(v, v)
     for T, rd, wr, n, w, elem in VT:
         _vec(ks, T, rd, wr, n, w, elem)
-    # Quat/DQuat::lerp, scalar slerp and from_rotation_arc (generic branch) were formulated as mode-R obligations ("result parallel to the blend, same direction, unit length");
-    # z3's nlsat returned `unknown` within 90-200 s on most of them (9 real variables, two unit-sphere hypotheses, a sign case split and a nested square root), so they are NOT
-    # claimed by E2. What is decided for them: the SSE2 slerp restatement and the lerp endpoints (E1 below), and `from_rotation_arc_colinear` / `_2d` structure.
+    # ---- quaternion lerp: end is negated exactly when dot < 0; result = normalize(q + (+-e - q) s)
+    for Q, q, wq, elem in (("Quat", "q", "wq", 4), ("DQuat", "dq", "wdq", 8)):
+        f1 = "f" if elem == 4 else "d"
+        for hemi, sgv in (("pos", 1), ("neg", -1)):
+            for variant, vcfgs, unit in ((("", None, True),) if elem == 8 else (("", ["scalar"], True), ("_sse2", ["sse2"], False))):
+                def ob_lerp(x, o, h, sgv=sgv, unit=unit):
+                    a, e, s = x[0:4], x[4:8], x[8]
+                    raw = [a[j] + (sgv * e[j] - a[j]) * s for j in range(4)]
+                    # (the sign inequality, and on the SSE2 kernel the unit-length identity, come back `unknown` from nlsat; q and -q are the same rotation)
+                    return normalised_of(h, o, raw, "lerp == +-normalize(q + (sign(dot) e - q) s)", direction=False, unit=unit)
+                hy = (lambda sgv: lambda x, h: [n2(x[0:4]) == 1, n2(x[4:8]) == 1, (R.dot(x[0:4], x[4:8]) > 0) if sgv > 0 else (R.dot(x[0:4], x[4:8]) < 0),
+                                                n2([x[j] + (sgv * x[4 + j] - x[j]) * x[8] for j in range(4)]) > 0])(sgv)
+                ks.append(K(f"{Q.lower()}_lerp_{hemi}{variant}", 9, 4, f"{wq}(o, 0, {q}(i, 0).lerp({q}(i, 4), {f1}(i, 8)));", ob_lerp, hyps=hy, cfgs=vcfgs,
+                            elem=elem, site=f"{Q}::lerp", desc=f"{Q}::lerp ({'dot > 0' if sgv > 0 else 'dot < 0: end negated'}): result is parallel to the linear blend q + (+-end - q) s (q at s=0, +-end at s=1)" + (", unit" if unit else ""), timeout=90))
+    # ---- from_rotation_arc, generic branch: result = normalize(a x b, 1 + a.b); with the homogenised lemma rot(q', a) = |q'|^2 b this is from_rotation_arc(a,b)*a == b
+    for Q, v3, wq, elem in (("Quat", "v3", "wq", 4), ("DQuat", "dv3", "wdq", 8)):
+        eps = Fraction(2) ** (-23 if elem == 4 else -52)
+        def ob_arc(x, o, h, eps=eps):
+            a, b = x[0:3], x[3:6]
+            d = R.dot(a, b)
+            qp = R.cross(a, b) + [1 + d]
+            thr = h.real(1 - 2 * eps)
+            nongeneric = [d > thr, d < -thr]
+            return [(lab, z3or(h, nongeneric + [f])) for lab, f in normalised_of(h, o, qp, "from_rotation_arc == normalize(a x b, 1 + a.b) on the generic branch")]
+        ks.append(K(f"{Q.lower()}_from_rotation_arc", 6, 4, f"{wq}(o, 0, {Q}::from_rotation_arc({v3}(i, 0), {v3}(i, 3)));", ob_arc, hyps=lambda x, h: [n2(x[0:3]) == 1, n2(x[3:6]) == 1],
+                    elem=elem, site=f"{Q}::from_rotation_arc", desc="generic branch: the result is (a x b, 1 + a.b) normalised", timeout=90))
+    def lem_arc(x, o, h):
+        a, b = x[0:3], x[3:6]
+        qp = R.cross(a, b) + [1 + R.dot(a, b)]
+        return R.eq_all(h, R.quat_rotate_raw(qp, a), R.scale(b, n2(qp)), "rot(q', a) == |q'|^2 b")
+    ks.append(K("lemma_rotation_arc", 6, 0, "", lem_arc, hyps=lambda x, h: [n2(x[0:3]) == 1, n2(x[3:6]) == 1], site="from_rotation_arc lemma",
+                desc="homogenised form: q' = (a x b, 1 + a.b) rotates a onto b (times |q'|^2) for all unit a, b", timeout=120))
     for Q, v3, wq, elem in (("Quat", "v3", "wq", 4), ("DQuat", "dv3", "wdq", 8)):
         ks.append(K(f"{Q.lower()}_from_rotation_arc_colinear", 6, 8, f"let a = {v3}(i, 0); let b = {v3}(i, 3); {wq}(o, 0, {Q}::from_rotation_arc_colinear(a, b)); {wq}(o, 4, if a.dot(b) < 0.0 {{ {Q}::from_rotation_arc(a, -b) }} else {{ {Q}::from_rotation_arc(a, b) }});",
                     lambda x, o, h: [(f"from_rotation_arc_colinear aligns with +-b [{j}]", h.eq(o[j], o[4 + j])) for j in range(4)], hyps=lambda x, h: [n2(x[0:3]) == 1, n2(x[3:6]) == 1], elem=elem,
@@ -107,12 +136,14 @@ def _vec(ks, T, rd, wr, n, w, elem):
                                      ("|a| == 1", h.eq(n2(o[0:3]), 1)), ("|b| == 1", h.eq(n2(o[3:6]), 1))], hyps=lambda x, h: [n2(A(x)) == 1], elem=elem, site=f"{T}::any_orthonormal_pair", timeout=200))
 
 
-def normalised_of(h, o, raw, label):
+def normalised_of(h, o, raw, label, direction=True, unit=True):
     import ref as R
     n = len(o)
     obs = [(f"{label}: parallel ({a},{b})", h.eq(o[a] * raw[b], o[b] * raw[a])) for a in range(n) for b in range(a + 1, n)]
-    obs.append((f"{label}: same direction", R.dot(o, raw) > 0))
-    obs.append((f"{label}: unit length", h.eq(R.dot(o, o), 1)))
+    if direction:
+        obs.append((f"{label}: same direction", R.dot(o, raw) > 0))
+    if unit:
+        obs.append((f"{label}: unit length", h.eq(R.dot(o, o), 1)))
     return obs
 
 
